@@ -641,6 +641,83 @@ func c07RunRebind(portal string, earlier []c07Shape, last c07Shape) explore.Resu
 	return res
 }
 
+// c07RunRejected: a Parse / Bind that the server REJECTS defines nothing: the names keep resolving to what they
+// resolved to before it (or stay unknown). The same history is served twice - with the rejected message (followed by
+// the Sync that ends its cycle) and with that Sync alone - and everything the client sends afterwards is answered
+// identically. (Whether portals survive a Sync is the same question in both runs, so it is not prejudged.)
+func c07RunRejected(sn, pn string, defined bool, rejected string) explore.Result {
+	var res explore.Result
+	res.Outcome = "plain"
+	res.Key = fmt.Sprint("rejected", sn, pn, defined, rejected)
+	var rej []byte
+	switch rejected {
+	case "Bind to an unknown statement":
+		rej = pgproto.Bind(pn, "nosuch", nil, [][]byte{[]byte("zz")}, nil)
+	case "Parse of two statements":
+		rej = pgproto.Parse(sn, "other|other")
+	case "Parse the parser refuses":
+		rej = pgproto.Parse(sn, "#perr")
+	case "Parse of zero statements":
+		rej = pgproto.Parse(sn, "#zero")
+	}
+	serve := func(with bool) (string, string) {
+		var trace []string
+		parse := func(ctx context.Context, q string) (wire.PreparedStatements, error) {
+			switch q {
+			case "#perr":
+				return nil, fmt.Errorf("refused")
+			case "#zero":
+				return wire.Prepared(), nil
+			}
+			var list []*wire.PreparedStatement
+			for _, part := range strings.Split(q, "|") {
+				part := part
+				list = append(list, wire.NewStatement(func(ctx context.Context, w wire.DataWriter, params []wire.Parameter) error {
+					var ps []string
+					for _, p := range params {
+						ps = append(ps, fmt.Sprintf("%q", p.Value()))
+					}
+					trace = append(trace, fmt.Sprintf("stmt %s params=%v", part, ps))
+					if err := w.Row([]any{int32(258)}); err != nil {
+						return err
+					}
+					return w.Complete("SELECT 1")
+				}, wire.WithColumns(wire.Columns{{Name: part, Oid: oid.T_int4}}), wire.WithParameters(wire.ParseParameters(part))))
+			}
+			return wire.Prepared(list...), nil
+		}
+		one, err := harness.StartOne(parse)
+		if err != nil {
+			return "", "engine: " + err.Error()
+		}
+		defer one.Stop()
+		one.Step(pgproto.Startup("user", "u"))
+		if defined {
+			one.Step(pgproto.Cat(pgproto.Parse(sn, "original $1"), pgproto.Bind(pn, sn, nil, [][]byte{[]byte("v1")}, nil), pgproto.Sync()))
+		}
+		if with {
+			one.Step(rej)
+		}
+		one.Step(pgproto.Sync())
+		trace = nil
+		out, _ := one.Step(pgproto.Cat(pgproto.Describe('S', sn), pgproto.Sync(), pgproto.Describe('P', pn), pgproto.Sync(), pgproto.Execute(pn, 0), pgproto.Sync(),
+			pgproto.Bind("other", sn, nil, [][]byte{[]byte("v2")}, nil), pgproto.Execute("other", 0), pgproto.Sync()))
+		t, _ := harness.CanonTranscript(out)
+		return strings.Join(t, " "), strings.Join(trace, "; ")
+	}
+	gotT, gotC := serve(true)
+	wantT, wantC := serve(false)
+	if strings.HasPrefix(gotC, "engine:") || strings.HasPrefix(wantC, "engine:") {
+		res.Engine = gotC + wantC
+		return res
+	}
+	if gotT != wantT || gotC != wantC {
+		res.Fail("wrong-resolution", fmt.Sprintf("statement %q / portal %q (defined before: %v), then a rejected message (%s) + Sync: Describe(S), Describe(P), Execute, Bind + Execute of another portal gave\n  %s | %s\nwithout the rejected message\n  %s | %s", sn, pn, defined, rejected, gotT, gotC, wantT, wantC))
+	}
+	res.Trans = []string{"defined|rejected definition|unchanged"}
+	return res
+}
+
 // c07RunRedefine: a statement name defined again with another (possibly blank) text: Bind / Describe / Execute
 // afterwards see the later definition, exactly as on a connection where only that definition was sent.
 func c07RunRedefine(name, q1, q2 string, portalBetween bool) explore.Result {
@@ -798,6 +875,20 @@ func c07RunRecycled(parsesAfter int, otherConn bool) explore.Result {
 }
 
 func c07Enumerate(tier string, emit explore.Emit) {
+	for _, sn := range []string{"", "a"} {
+		for _, pn := range []string{"", "x"} {
+			for _, defined := range []bool{true, false} {
+				for _, rejected := range []string{"Bind to an unknown statement", "Parse of two statements", "Parse the parser refuses", "Parse of zero statements"} {
+					sn, pn, defined, rejected := sn, pn, defined, rejected
+					emit(explore.Case{Family: "rejected-definition", Size: 44,
+						Desc: func() any {
+							return map[string]any{"statement": sn, "portal": pn, "defined_before": defined, "rejected_message": rejected}
+						},
+						Run: func() explore.Result { return c07RunRejected(sn, pn, defined, rejected) }})
+				}
+			}
+		}
+	}
 	for _, n := range []int{1, 31, 62, 63, 64, 65, 127, 128, 255, 256, 1000} {
 		base := strings.Repeat("n", n)
 		for vi, pair := range [][2]string{{base + "a", base + "b"}, {base, base + "x"}, {base + "x", base}} {
